@@ -77,13 +77,12 @@ Proof. intros Hd. rewrite (vecr_AXB d d d S X (cadj S) t Hd Hd). unfold gm_mode0
   unfold kron, mT, cadj, cconj. reflexivity. Qed.
 
 (* ------------------------------------------------------------------ mode 1 *)
-Variable w : nat -> F.
 Variable V : CM.
 (* the columns of V are orthonormal ( V^dagger V = I : what eigh returns, checked on every run by the harness's certificate ) *)
 Definition cols_orthonormal := forall k l, (k < d)%nat -> (l < d)%nat ->
   sumn d (fun i => zconj (V i k) *c V i l) = (if Nat.eqb k l then c1 Cx else z0).
-(* V diag(w) V^dagger *)
-Definition spectral : CM := fun i j => sumn d (fun k => zof (w k) *c colouter F V k i j).
+(* V diag(u) V^dagger *)
+Definition spectral (u : nat -> F) : CM := fun i j => sumn d (fun k => zof (u k) *c colouter F V k i j).
 Notation col := (colouter F V).
 
 Lemma col_adj_col k l b a : cols_orthonormal -> (k < d)%nat -> (l < d)%nat ->
@@ -94,17 +93,23 @@ Proof. intros Ho Hk Hl. unfold mmul, cadj, colouter.
   rewrite sumn_scale_l, (Ho k l Hk Hl). destruct (Nat.eqb_spec k l) as [->|]; ring. Qed.
 Lemma gram_col k b a : cols_orthonormal -> (k < d)%nat -> gram (col k) b a = col k b a.
 Proof. intros Ho Hk. unfold gram. rewrite (col_adj_col k k b a Ho Hk Hk). now rewrite Nat.eqb_refl. Qed.
+Lemma cadj_col k b a : cadj (col k) b a = col k b a.
+Proof. unfold cadj, colouter. rewrite zconj_cmul, (zconj_conj F). ring. Qed.
 
 (* the docstring formula (no grouping) *)
-Theorem gm_mode1_doc_induces : cols_orthonormal ->
-  forall c, induced_effect_cb F d (gm_mode1_cb_doc F d w V) c = spectral (c mod d)%nat (c / d)%nat.
+Theorem gm_mode1_doc_induces (w : nat -> F) : cols_orthonormal ->
+  forall c, induced_effect_cb F d (gm_mode1_cb_doc F d w V) c = spectral w (c mod d)%nat (c / d)%nat.
 Proof. intros Ho c. unfold gm_mode1_cb_doc. rewrite (induced_sumn d (fun k => zof (w k)) col c).
   unfold spectral. apply sumn_ext; intros k Hk. now rewrite gram_col. Qed.
 
-(* the code: groups of exactly equal adjacent eigenvalues.  Invariant of the fold: every group matrix is orthogonal to the
-   projectors still to come, and the induced sum so far is the partial spectral sum *)
+(* the code: groups of adjacent eigenvalues within tol of the group's first eigenvalue.  Invariant of the fold: every group matrix is an
+   orthogonal projector (Hermitian, P^dagger P = P) that is orthogonal to the projectors still to come, and the induced sum so far is the
+   partial spectral sum for the eigenvalues u (each eigenvalue replaced by the key of its group, at most tol away) *)
+Variable tol : F.
+Variable w : nat -> F.
 Definition orthf (P : CM) (k : nat) : Prop := forall k', (k <= k')%nat -> (k' < d)%nat -> forall b a,
   mmul d (cadj P) (col k') b a = z0 /\ mmul d (cadj (col k')) P b a = z0.
+Definition is_proj (P : CM) : Prop := (forall b a, gram P b a = P b a) /\ (forall b a, cadj P b a = P b a).
 Lemma orthf_weaken P k : orthf P k -> orthf P (S k).
 Proof. intros H k' Hk' Hd. apply H; lia. Qed.
 Lemma orthf_col k : cols_orthonormal -> (k < d)%nat -> orthf (col k) (S k).
@@ -123,49 +128,100 @@ Lemma gram_cmadd_col P k b a : cols_orthonormal -> (k < d)%nat -> orthf P k ->
 Proof. intros Ho Hk HP. unfold gram. rewrite mmul_cadj_cmadd_l, !mmul_cmadd_r.
   destruct (HP k (le_n k) Hk b a) as [-> ->]. fold (gram (col k)). rewrite (gram_col k b a Ho Hk).
   fold (gram P). ring. Qed.
+Lemma is_proj_col k : cols_orthonormal -> (k < d)%nat -> is_proj (col k).
+Proof. intros Ho Hk. split; intros b a; [now apply gram_col|apply cadj_col]. Qed.
+Lemma is_proj_cmadd_col P k : cols_orthonormal -> (k < d)%nat -> orthf P k -> is_proj P -> is_proj (cmadd F P (col k)).
+Proof. intros Ho Hk HO [G A]. split; intros b a.
+  - rewrite (gram_cmadd_col P k b a Ho Hk HO), G. reflexivity.
+  - unfold cadj, cmadd. rewrite zconj_cadd. fold (cadj P b a). fold (cadj (col k) b a). now rewrite A, cadj_col. Qed.
 
-Definition groups_upto (k : nat) : list (F * CM) := fold_left (gm1_step F col w) (seq 0 k) [].
-Lemma groups_upto_S k : groups_upto (S k) = gm1_step F col w (groups_upto k) k.
+Definition groups_upto (k : nat) : list (F * CM) := fold_left (gm1_step F col tol w) (seq 0 k) [].
+Lemma groups_upto_S k : groups_upto (S k) = gm1_step F col tol w (groups_upto k) k.
 Proof. unfold groups_upto. rewrite seq_S, fold_left_app. reflexivity. Qed.
 
-Lemma kleb_both_eq (x y : F) : kleb F x y && kleb F y x = true -> x = y.
-Proof. rewrite andb_true_iff, !k_leb. intros [A B]. now apply (k_antisym F). Qed.
+Definition upd (u : nat -> F) (k : nat) (x : F) : nat -> F := fun j => if Nat.eqb j k then x else u j.
+Lemma absF'_zero : absF' F (csub F (c0 F) (c0 F)) = c0 F.
+Proof. replace (csub F (c0 F) (c0 F)) with (c0 F) by ring. unfold absF'. now rewrite (proj2 (k_leb F _ _) (k_refl F (c0 F))). Qed.
+Lemma absF'_self (x : F) : absF' F (csub F x x) = c0 F.
+Proof. replace (csub F x x) with (csub F (c0 F) (c0 F)) by ring. apply absF'_zero. Qed.
 
-Lemma groups_invariant : cols_orthonormal -> forall k, (k <= d)%nat ->
-  Forall (fun g => orthf (snd g) k) (groups_upto k) /\
-  forall b a, gsum (groups_upto k) b a = sumn k (fun j => zof (w j) *c col j b a).
-Proof. intros Ho. induction k as [|k IH]; intros Hk.
-  - split; [constructor|]. intros b a. reflexivity.
-  - assert (Hkd : (k < d)%nat) by lia. destruct (IH (Nat.lt_le_incl _ _ Hkd)) as [IO IS]. clear IH.
+Lemma groups_invariant : cols_orthonormal -> kle F (c0 F) tol -> forall k, (k <= d)%nat ->
+  exists u : nat -> F,
+    (forall j, (j < k)%nat -> kle F (absF' F (csub F (w j) (u j))) tol) /\
+    Forall (fun g => orthf (snd g) k /\ is_proj (snd g)) (groups_upto k) /\
+    forall b a, gsum (groups_upto k) b a = sumn k (fun j => zof (u j) *c col j b a).
+Proof. intros Ho Ht. induction k as [|k IH]; intros Hk.
+  - exists w. split; [intros j Hj; lia|]. split; [constructor|]. intros b a. reflexivity.
+  - assert (Hkd : (k < d)%nat) by lia. destruct (IH (Nat.lt_le_incl _ _ Hkd)) as (u & HU & IO & IS). clear IH.
     rewrite groups_upto_S. unfold gm1_step. destruct (groups_upto k) as [|[e P] t] eqn:EG.
-    + split; [constructor; [now apply orthf_col|constructor]|].
-      intros b a. cbn [gsum fold_right fst snd sumn]. rewrite <- IS. cbn [gsum fold_right].
-      rewrite (gram_col k b a Ho Hkd). ring.
-    + inversion IO as [|x l HP Ht]; subst. cbn [snd] in HP.
-      destruct (kleb F e (w k) && kleb F (w k) e) eqn:E.
-      * apply kleb_both_eq in E. split.
-        { constructor; [cbn [snd]; apply orthf_cmadd; [now apply orthf_weaken|now apply orthf_col]|].
-          eapply Forall_impl; [|exact Ht]. intros g. apply orthf_weaken. }
-        intros b a. cbn [sumn]. rewrite <- IS. unfold gsum. cbn [fold_right fst snd].
-        rewrite (gram_cmadd_col P k b a Ho Hkd HP), <- E. ring.
-      * split.
-        { constructor; [now apply orthf_col|]. eapply Forall_impl; [|exact IO]. intros g. apply orthf_weaken. }
-        intros b a. cbn [sumn]. rewrite <- IS. unfold gsum. cbn [fold_right fst snd].
+    + exists (upd u k (w k)). split; [|split].
+      * intros j Hj. unfold upd. destruct (Nat.eqb_spec j k) as [->|N]; [rewrite absF'_self; exact Ht|apply HU; lia].
+      * constructor; [split; [now apply orthf_col|now apply is_proj_col]|constructor].
+      * intros b a. cbn [gsum fold_right fst snd sumn]. unfold upd at 2. rewrite Nat.eqb_refl.
+        rewrite (sumn_ext k (fun j => zof (upd u k (w k) j) *c col j b a) (fun j => zof (u j) *c col j b a)).
+        2:{ intros j Hj. unfold upd. destruct (Nat.eqb_spec j k); [lia|reflexivity]. }
+        rewrite <- IS. cbn [gsum fold_right]. rewrite (gram_col k b a Ho Hkd). ring.
+    + inversion IO as [|x l [HP HPr] Ht']; subst. cbn [snd] in HP, HPr.
+      destruct (kleb F (absF' F (csub F (w k) e)) tol) eqn:E.
+      * exists (upd u k e). split; [|split].
+        { intros j Hj. unfold upd. destruct (Nat.eqb_spec j k) as [->|N]; [now apply (k_leb F)|apply HU; lia]. }
+        { constructor; [cbn [snd]; split; [apply orthf_cmadd; [now apply orthf_weaken|now apply orthf_col]|now apply is_proj_cmadd_col]|].
+          eapply Forall_impl; [|exact Ht']. intros g [A B]. split; [now apply orthf_weaken|exact B]. }
+        intros b a. cbn [sumn]. unfold upd at 2. rewrite Nat.eqb_refl.
+        rewrite (sumn_ext k (fun j => zof (upd u k e j) *c col j b a) (fun j => zof (u j) *c col j b a)).
+        2:{ intros j Hj. unfold upd. destruct (Nat.eqb_spec j k); [lia|reflexivity]. }
+        rewrite <- IS. unfold gsum. cbn [fold_right fst snd].
+        rewrite (gram_cmadd_col P k b a Ho Hkd HP). ring.
+      * exists (upd u k (w k)). split; [|split].
+        { intros j Hj. unfold upd. destruct (Nat.eqb_spec j k) as [->|N]; [rewrite absF'_self; exact Ht|apply HU; lia]. }
+        { constructor; [split; [now apply orthf_col|now apply is_proj_col]|]. eapply Forall_impl; [|exact IO].
+          intros g [A B]. split; [now apply orthf_weaken|exact B]. }
+        intros b a. cbn [sumn]. unfold upd at 2. rewrite Nat.eqb_refl.
+        rewrite (sumn_ext k (fun j => zof (upd u k (w k) j) *c col j b a) (fun j => zof (u j) *c col j b a)).
+        2:{ intros j Hj. unfold upd. destruct (Nat.eqb_spec j k); [lia|reflexivity]. }
+        rewrite <- IS. unfold gsum. cbn [fold_right fst snd].
         rewrite (gram_col k b a Ho Hkd). ring. Qed.
 
-(* THE CODE (after the fix), whatever is grouped: the induced effect is V diag(w) V^dagger *)
-Theorem gm_mode1_induces : cols_orthonormal ->
-  forall c, induced_effect_cb F d (gm_mode1_cb F d w V) c = spectral (c mod d)%nat (c / d)%nat.
-Proof. intros Ho c. unfold gm_mode1_cb. rewrite induced_groups.
-  change (gm1_groups F d col w) with (groups_upto d).
-  destruct (groups_invariant Ho d (le_n d)) as [_ HS]. now rewrite HS. Qed.
-(* ... hence the POVM element it was generated from, when (w, V) is an eigen-decomposition of it *)
-Corollary gm_mode1_induces_povm (Pi : CM) : cols_orthonormal -> meq d d Pi spectral ->
-  forall c, (c < d * d)%nat -> induced_effect_cb F d (gm_mode1_cb F d w V) c = Pi (c mod d)%nat (c / d)%nat.
-Proof. intros Ho HP c Hc. rewrite (gm_mode1_induces Ho).
-  assert (Hd : (0 < d)%nat) by (destruct d; [cbn in Hc; lia|lia]).
-  symmetry. apply HP; [apply Nat.mod_upper_bound; lia|apply Nat.div_lt_upper_bound; lia]. Qed.
+(* THE CODE, whatever is grouped: the induced effect is V diag(u) V^dagger for eigenvalues u within tol of the eigenvalues w eigh returned
+   (u_k = the first eigenvalue of k's group) *)
+Theorem gm_mode1_induces : cols_orthonormal -> kle F (c0 F) tol ->
+  exists u : nat -> F, (forall j, (j < d)%nat -> kle F (absF' F (csub F (w j) (u j))) tol) /\
+    forall c, induced_effect_cb F d (gm_mode1_cb F d tol w V) c = spectral u (c mod d)%nat (c / d)%nat.
+Proof. intros Ho Ht. destruct (groups_invariant Ho Ht d (le_n d)) as (u & HU & _ & HS).
+  exists u. split; [exact HU|]. intros c. unfold gm_mode1_cb. rewrite induced_groups.
+  change (gm1_groups F d col tol w) with (groups_upto d). now rewrite HS. Qed.
+(* ... and every group matrix is an orthogonal projector: Hermitian and idempotent *)
+Theorem gm_mode1_groups_are_projectors : cols_orthonormal -> kle F (c0 F) tol ->
+  Forall (fun g => (forall b a, mmul d (snd g) (snd g) b a = snd g b a) /\ (forall b a, cadj (snd g) b a = snd g b a))
+         (gm1_groups F d col tol w).
+Proof. intros Ho Ht. destruct (groups_invariant Ho Ht d (le_n d)) as (u & _ & HF & _).
+  change (gm1_groups F d col tol w) with (groups_upto d). eapply Forall_impl; [|exact HF].
+  intros g [_ [G A]]. split; [|exact A]. intros b a. transitivity (gram (snd g) b a); [|apply G]. unfold gram, mmul. apply sumn_ext; intros i _.
+  f_equal. symmetry. apply A. Qed.
 End GenM.
+
+(* the action of the mode-1 instrument on row-major vectorised operators: X |-> sum_groups key_g P_g X P_g^dagger *)
+Section GroupsAct.
+Context (F : OF).
+Notation Cx := (CF F).
+Add Ring Cxga : (c_ring Cx).
+Notation CM := (cmat F).
+Variable d : nat.
+Definition groups_apply (gs : list (F * CM)) (X : CM) : CM :=
+  fun i j => fold_right (fun g acc => cadd Cx (cmul Cx (zof (fst g)) (mmul d (mmul d (snd g) X) (cadj (snd g)) i j)) acc) (c0 Cx) gs.
+Lemma mv_lin n (x : Cx) (A B : CM) (v : nat -> Cx) t :
+  mv n (fun r c => cadd Cx (cmul Cx x (A r c)) (B r c)) v t = cadd Cx (cmul Cx x (mv n A v t)) (mv n B v t).
+Proof. unfold mv. rewrite <- sumn_scale_l, <- sumn_add. apply sumn_ext; intros; ring. Qed.
+Theorem gm1_cb_acts (gs : list (F * CM)) (X : CM) t : (0 < d)%nat ->
+  mv (d * d) (gm1_cb_of_groups F d gs) (vecr d X) t = vecr d (groups_apply gs X) t.
+Proof. intros Hd. induction gs as [|g gs IH].
+  - unfold gm1_cb_of_groups, groups_apply, vecr, mv. cbn [fold_right]. apply sumn_zero'. intros; ring.
+  - etransitivity; [apply (mv_lin (d * d) (zof (fst g)) (kron d d (snd g) (cconj (snd g))) (gm1_cb_of_groups F d gs) (vecr d X) t)|].
+    unfold vecr at 3. unfold groups_apply. cbn [fold_right]. f_equal; [f_equal; exact (gm_mode0_is_luders F d (snd g) X t Hd)|exact IH]. Qed.
+Theorem gm_mode1_acts (V : CM) (tol : F) (w : nat -> F) (X : CM) t : (0 < d)%nat ->
+  mv (d * d) (gm_mode1_cb F d tol w V) (vecr d X) t = vecr d (groups_apply (gm1_groups F d (colouter F V) tol w) X) t.
+Proof. exact (gm1_cb_acts (gm1_groups F d (colouter F V) tol w) X t). Qed.
+End GroupsAct.
 
 (* ------------------------------------------------------------------ mode 2 (coefficient level, any basis with B_0 = I/sd) *)
 Section Mode2.
